@@ -16,6 +16,13 @@ Code modelled, branch by branch:
         (type, nullable, readOnly, writeOnly, minLength, maximum, properties, required,
          additionalProperties: true|false, items)                        → `visit`
 
+Specification side (written from the property text, not from the control flow): `candidates`/`firstSome`
+(precedence list), `SatReq` (+ executable `satReqB`), `specFormProp(s)`/`encodeForm` (what form fields encode,
+what a client writes), `specDecode`, `Accept` (+ executable `acceptB`).
+Exclusion classes (known findings): `roNull` (ReadOnlyNull), `formUnparsable` (FormFieldUnparsable, #20),
+`formNullStored` (FormNullForMissing); lifted to whole cases by `exclReadOnlyNull`, `exclFormUnparsable`,
+`exclFormNull`.
+
 What is abstracted (inputs of the model, produced by the trusted parsers in the correspondence run):
   `BodyIn.json`  – what `encoding/json` makes of the whole body text (none = not exactly one JSON value),
   `BodyIn.form`  – what `net/url.ParseQuery` makes of it,
